@@ -56,7 +56,7 @@ func QToProto(q Q) *webserverv1.Q {
 }
 
 func QFromProto(p *webserverv1.Q) (Q, error) {
-	switch v := p.Query.(type) {
+	switch v := p.GetQuery().(type) {
 	case *webserverv1.Q_RawConfig:
 		return RawConfigFromProto(v.RawConfig), nil
 	case *webserverv1.Q_Regexp:
@@ -96,7 +96,9 @@ func QFromProto(p *webserverv1.Q) (Q, error) {
 	case *webserverv1.Q_Meta:
 		return MetaFromProto(v.Meta)
 	default:
-		panic(fmt.Sprintf("unknown query node %T", p.Query))
+		// p is unset or has no query set. A request from the wire can look like
+		// this, so it is an error rather than a panic.
+		return nil, fmt.Errorf("unknown query node %T", p.GetQuery())
 	}
 }
 
